@@ -25,7 +25,8 @@ VARIABLE l
 tvars == <<opt, hist, l>>
 
 RECURSIVE KeepOKx(_)     \* under keep-spaces inter-element white space must not contain blanks (it would be content)
-KeepOKx(e) == /\ \A i \in 1..Len(TextKids(e)) : NonBlank(TextKids(e)[i].tx) \/ \A j \in 1..Len(TextKids(e)[i].tx) : TextKids(e)[i].tx[j] # " "
+KeepOKx(e) == /\ \/ Len(TextKids(e)) = 1
+                 \/ \A i \in 1..Len(TextKids(e)) : NonBlank(TextKids(e)[i].tx) \/ \A j \in 1..Len(TextKids(e)[i].tx) : TextKids(e)[i].tx[j] # " "
               /\ \A i \in 1..Len(ElemKids(e)) : KeepOKx(ElemKids(e)[i])
 DecDomain(d, o) == CodecDomain(opt) /\ AttrsDistinct(d, o) /\ (o.keep => KeepOKx(d))
 
@@ -97,8 +98,23 @@ TrDecX == /\ IsEv("decx")
              IF AttrsDistinct(e.d, o) /\ (o.keep => KeepOKx(e.d)) THEN e.err = "ok" /\ e.r = Jsonable(Decode(e.d, o)) ELSE Skip
           /\ UNCHANGED <<opt, hist>> /\ Advance
 
+\* a Map.Xml(rootTag...) call made while the repository's own tests ran (wrapper around the renamed method in a scratch
+\* copy): the encoder registers are LOGGED with the call; exact bytes, an error exactly where the specification has one (C03)
+TrEncX == /\ IsEv("encx")
+          /\ LET e == Trace[l]
+                 eo == [apfx |-> e.o.apfx, kpfx |-> e.o.kpfx, esc |-> e.o.esc, goempty |-> e.o.goempty]
+                 mc == ToChars(e.m)
+                 tk == Cs1(eo.kpfx) \o <<"t", "e", "x", "t">>
+                 single == Cardinality(DOMAIN mc.kv) = 1
+                 rk == CHOOSE k \in DOMAIN mc.kv : TRUE IN
+             IF eo.apfx # eo.kpfx /\ TextOKx(mc, tk) /\ (e.tag = "" /\ single => ~IsAttrKey(eo, rk) /\ rk # tk)
+             THEN LET ns == EncodeRoot(mc, CharsOf(e.tag), eo) IN
+                  IF HasErr(ns) THEN e.encerr = "err" ELSE e.encerr = "ok" /\ e.x = Join(RenderCompact(ns, eo))
+             ELSE Skip
+          /\ UNCHANGED <<opt, hist>> /\ Advance
+
 TraceInit == l = 1 /\ opt = InitOpt /\ hist = <<>> /\ TLCSet(1, 1) /\ TLCSet(2, 0)
-TraceNext == TrReset \/ TrSet \/ TrDec \/ TrRt \/ TrSeq \/ TrDecX \/ TrEncv
+TraceNext == TrReset \/ TrSet \/ TrDec \/ TrRt \/ TrSeq \/ TrDecX \/ TrEncv \/ TrEncX
 TraceSpec == TraceInit /\ [][TraceNext]_tvars
 TraceAccepted ==
   /\ PrintT("TRACE-SKIPPED " \o ToString(TLCGet(2)))
